@@ -72,7 +72,7 @@ def run_scenarios(c, rng, wd, n, span_bias, kind, tagbase, capture=False, curate
             sc.run(plan)
             tr = sc.trace()
             problems = []
-            known = []
+            known, known_caught = [], []
             if sc.results != ref:
                 problems.append('host results changed: with agent %s, without %s' % (sc.results, ref))
             esc = [r for r in sc.records if r.get('escaped')]
@@ -83,6 +83,8 @@ def run_scenarios(c, rng, wd, n, span_bias, kind, tagbase, capture=False, curate
             for tag, text in sc.capture_problems():
                 if tag == 'result-nested':
                     known.append(text)
+                elif tag == 'result-caught':
+                    known_caught.append(text)
                 else:
                     problems.append(text)
             if sc.leftover:
@@ -93,7 +95,7 @@ def run_scenarios(c, rng, wd, n, span_bias, kind, tagbase, capture=False, curate
             nf = sum(len(e.get('fired', [])) for e in tr[1:])
             meta.append({'kind': kind, 'tps': sc.all_model_tps, 'plan': plan, 'events': nev, 'firings': nf,
                          'closes': sum(len(e.get('closed', [])) for e in tr[1:]), 'problems': problems,
-                         'known': known})
+                         'known': known, 'known_caught': known_caught})
         finally:
             sc.close()
     return traces, meta
@@ -123,6 +125,9 @@ def validate(c, traces, meta, nontrivial):
         if m.get('known'):
             c.violation('capture in nested same-name invocations: %s' % m['known'][:2], None,
                         signature={'capture': 'nested-same-name'})
+        if m.get('known_caught'):
+            c.violation('capture of an exception the invocation caught: %s' % m['known_caught'][:2], None,
+                        signature={'capture': 'caught-exception'})
         if bad is None and i not in accepted:
             at = progress.get(i, 0)
             bad = 'trace rejected by Trace_Dispatch at event %d: %s' % (at, tr[at - 1] if at - 1 < len(tr) else None)
